@@ -41,6 +41,7 @@ def bounds(tier):
     if tier == "quick":
         return dict(
             argmax_alphabet=["nan", "-inf", -1, 0, 1, "inf"], argmax_maxlen=4,
+            argmax_near_alphabet=["nan", 0, 1e-12, -1e-12, 1, 1.0000001, 0.9999999, -1, -1.0000001], argmax_near_maxlen=3,
             argmax2d_shapes=[[2, 2], [3, 2]], argmax2d_alphabet=["nan", 0, 1],
             batch_max_alphabet=["nan", -1, 0, 0.5, 1], batch_maxlen=4,
             batch_prop_alphabet=["nan", 0, 1, 2], batch2d_shapes=[[2, 2]], real_seeds=4,
@@ -65,6 +66,12 @@ def _cases(tier):
         for vals in itertools.product(A, repeat=n):
             for fn in ("rand_argmax", "rand_argmin"):
                 out.append((fn, [n], list(vals), None))
+    # near ties and tiny magnitudes: an "exact optimum" must not be confused with an approximately equal entry
+    N = [_val(v) for v in b["argmax_near_alphabet"]]
+    for n in range(2, b["argmax_near_maxlen"] + 1):
+        for vals in itertools.product(N, repeat=n):
+            for fn in ("rand_argmax", "rand_argmin"):
+                out.append((fn, [n], list(vals), None))
     A2 = [_val(v) for v in b["argmax2d_alphabet"]]
     for shape in b["argmax2d_shapes"]:
         for vals in itertools.product(A2, repeat=shape[0] * shape[1]):
@@ -85,6 +92,9 @@ def _cases(tier):
         for vals in itertools.product(A2, repeat=shape[0] * shape[1]):
             for bs in range(1, shape[0] * shape[1] + 2):
                 out.append(("simple_batch:max", shape, list(vals), bs))
+    for vals in itertools.product([1.0, 1.0000001, 0.9999999, 1e-12, 0.0], repeat=3):
+        for bs in (1, 2, 3):
+            out.append(("simple_batch:max", [3], list(vals), bs))
     # one inf case per simple_batch method: documented rejection
     out.append(("simple_batch:max", [2], [INF, 0.0], 1))
     return out
